@@ -24,6 +24,7 @@ def run(m, props, tier, seed):
         open(path, "w").write(src.replace(old, new))
         out = {"name": name, "results": {}}
         for p in (props or expect):
+            before = set(os.listdir(os.path.join(HERE, "replays")))
             t = time.time()
             env = dict(os.environ, VERIF_REPO=tmp, VERIF_SEED=str(seed))
             r = subprocess.run([os.path.join(HERE, "check"), p, "--tier", tier, "--no-evidence", "--noshrink"], env=env, capture_output=True, text=True, cwd=HERE)
@@ -31,12 +32,8 @@ def run(m, props, tier, seed):
             sub = [l.strip() for l in r.stdout.splitlines() if l.strip().startswith("failed sub-check")]
             out["results"][p] = {"rc": r.returncode, "violation": bool(viol), "wall_s": round(time.time() - t, 1), "subchecks": sorted(set(s.split()[2] for s in sub))[:6]}
             # replays written by the mutated run are not regressions of the real tree: remove them
-            for l in viol:
-                rp = l.split("replay=")[1].strip()
-                try:
-                    os.remove(os.path.join(HERE, rp))
-                except OSError:
-                    pass
+            for fn in set(os.listdir(os.path.join(HERE, "replays"))) - before:
+                os.remove(os.path.join(HERE, "replays", fn))
             if r.returncode == 2:
                 out["results"][p]["tail"] = r.stdout[-800:]
         return out
